@@ -254,6 +254,13 @@ func runC19(res *lib.Result, tier string, seed int64, args []string) error {
 			// a global table declared in one file gets a function member in another file
 			files["f0.lua"] += fmt.Sprintf("GTw%d = {}\nfunction GTw%d.own%d() end\n", wi, wi, wi)
 			files["f1.lua"] += fmt.Sprintf("function GTw%d.cross%d(a, b)\n  return a\nend\n", wi, wi)
+			// … and a global table that has NO member of its own where it is declared
+			files["f0.lua"] += fmt.Sprintf("GEw%d = {}\n", wi)
+			files["f1.lua"] += fmt.Sprintf("function GEw%d.crossE%d(a)\n  return a\nend\n", wi, wi)
+		}
+		if !many {
+			// the default idiom: the constructor behind `or` declares the members (global and local table)
+			files["nest.lua"] += fmt.Sprintf("ModD%d = ModD%d or { runD%d = function() end, verD%d = 1 }\nfunction ModD%d.stopD%d() end\nlocal CacheD%d = CacheD%d or { getD%d = function(k) return k end }\nprint(CacheD%d)\n", wi, wi, wi, wi, wi, wi, wi, wi, wi, wi)
 		}
 		dir := lib.ScratchDir(fmt.Sprintf("c19w%d", wi))
 		if err := lib.WriteWorkspace(dir, files); err != nil {
